@@ -12,6 +12,9 @@ SPEC = {
     "engines": [
         {"name": "pipe", "pkg": "./pipe", "timeout_quick": 90, "search_cases": 20000},
         {"name": "sys", "pkg": "./sys", "timeout_quick": 90, "search_cases": 6000},
+        # "across notification-log GC, snapshot reload and restarts": the log itself, restarted through the real
+        # Maintenance loop and its snapshot file (C10's engine)
+        {"name": "nflog", "pkg": "./nflog", "timeout_quick": 90, "search_cases": 30000},
     ],
     "rule": "random histories of one alert group (4 alerts appearing/firing/resolving/vanishing, some muted per flush) flushed through the REAL "
             "PipelineBuilder.New stage chain with 1-2 integrations (send_resolved on/off, per-flush accept/reject, delivery delay, tick lagging "
